@@ -3,6 +3,6 @@
 prop=$1; patch=$2; tier=${3:-quick}
 cd /verif
 git -C /repo apply "$patch" || { echo "PATCH DOES NOT APPLY"; exit 2; }
-timeout 1800 ./check $prop $tier 2>&1 | grep -E "VIOLATION|KNOWN-FINDING|exit" | head -5
+timeout 1800 ./check $prop $tier 2>&1 | grep -E "VIOLATION|\] exit" | head -6
 git -C /repo checkout -- .
 git -C /repo status --short | head -3
